@@ -112,6 +112,9 @@ class ResolverTask:
             helper = "pyvc.rt_ptr" if self.which == "resolve_fragment" else "pyvc.rt_ref"
             try:
                 res["search"] = driver.rt_call(helper, {"cmd": "search", "root": self.root, "limit": 3}, self.root, timeout=3000)
+                if self.which == "resolve_from_url" and not res["search"].get("failures"):
+                    # reference targets are found by document URL only (C10): identifier-looking objects elsewhere are not targets
+                    res["search"] = driver.rt_call("pyvc.rt_kw", {"cmd": "search_extras", "root": self.root, "limit": 3}, self.root, timeout=3000)
                 if self.which != "resolve_fragment" and not res["search"].get("failures"):
                     # fetch accounting / cache behaviour
                     res["search"] = driver.rt_call("pyvc.rt_hist", {"cmd": "search", "root": self.root, "maxlen": 2, "limit": 3,
